@@ -13,6 +13,8 @@ structure ChanInv (ch : Chan) : Prop where
   nil_empty : ch.isNil = true → ch.sendQ = [] ∧ ch.recvQ = [] ∧ ch.buf = [] ∧ ch.cap = 0
   fifo : ch.hRecv ++ ch.buf = ch.hCommit
   nil_open : ch.isNil = true → ch.closed = false
+  /-- queued senders and queued receivers of one channel belong to the same goroutine (one select) -/
+  mixed : ∀ e1 ∈ ch.sendQ, ∀ e2 ∈ ch.recvQ, e1.gid = e2.gid
 
 /-- `b` is `a` with some queue entries removed (and possibly closed) -/
 structure Shrink (a b : Chan) : Prop where
@@ -48,13 +50,14 @@ theorem ChanInv.shrink {a b : Chan} (h : ChanInv a) (s : Shrink a b) : ChanInv b
     exact ⟨sub_eq_nil s.sendQ this.1, sub_eq_nil s.recvQ this.2.1, this.2.2⟩
   fifo := by rw [s.hRecv, s.buf, s.hCommit]; exact h.fifo
   nil_open := fun hn => by rw [s.closed]; exact h.nil_open (s.isNil ▸ hn)
+  mixed := fun e1 h1 e2 h2 => h.mixed e1 (s.sendQ.subset h1) e2 (s.recvQ.subset h2)
 
 theorem inv_nil : ChanInv Chan.nil :=
-  ⟨by decide, by intro h; exact absurd rfl h, by intro h; exact absurd rfl h, by intro _; exact ⟨rfl, rfl, rfl, rfl⟩, rfl, by intro _; rfl⟩
+  ⟨by decide, by intro h; exact absurd rfl h, by intro h; exact absurd rfl h, by intro _; exact ⟨rfl, rfl, rfl, rfl⟩, rfl, by intro _; rfl, by intro e1 h1; cases h1⟩
 
 theorem inv_make (cap : Nat) : ChanInv (Chan.make cap) :=
   ⟨Nat.zero_le _, by intro h; exact absurd rfl h, by intro h; exact absurd rfl h,
-   by intro h; simp [Chan.make] at h, rfl, by intro _; rfl⟩
+   by intro h; simp [Chan.make] at h, rfl, by intro _; rfl, by intro e1 h1; cases h1⟩
 
 /-! ### channel lists, addressed with `getD _ Chan.nil` -/
 
@@ -146,7 +149,8 @@ theorem doSend_inv (s : State) (g c v : Nat) (h : AllInv s.chans) : AllInv (doSe
       simp only [setC_chans]
       apply h.set
       have hb : ch.buf = [] := hc.recv_buf (by rw [heq]; simp)
-      refine ⟨hc.buf_le, fun _ => hb, hc.send_full, ?_, ?_, hc.nil_open⟩
+      refine ⟨hc.buf_le, fun _ => hb, hc.send_full, ?_, ?_, hc.nil_open,
+        fun e1 h1 e2 h2 => hc.mixed e1 h1 e2 (by rw [heq]; exact List.mem_cons_of_mem _ h2)⟩
       · intro hn; have := (hc.nil_empty hn).2.1; rw [heq] at this; cases this
       · have := hc.fifo; simp only [hb, List.append_nil] at this ⊢; rw [this]
     · next heq =>
@@ -154,7 +158,7 @@ theorem doSend_inv (s : State) (g c v : Nat) (h : AllInv s.chans) : AllInv (doSe
       · next hlt =>
         simp only [setC_chans]
         apply h.set
-        refine ⟨?_, ?_, ?_, ?_, ?_, hc.nil_open⟩
+        refine ⟨?_, ?_, ?_, ?_, ?_, hc.nil_open, hc.mixed⟩
         · simp; omega
         · intro hr; exact absurd heq hr
         · intro hs; have := hc.send_full hs; omega
@@ -163,7 +167,7 @@ theorem doSend_inv (s : State) (g c v : Nat) (h : AllInv s.chans) : AllInv (doSe
       · next hge =>
         simp only [block_chans, setC_chans]
         apply h.set
-        refine ⟨hc.buf_le, hc.recv_buf, ?_, ?_, hc.fifo, hc.nil_open⟩
+        refine ⟨hc.buf_le, hc.recv_buf, ?_, ?_, hc.fifo, hc.nil_open, fun e1 _ e2 h2 => by rw [heq] at h2; cases h2⟩
         · intro _; simp only; omega
         · intro hn
           have := hc.nil_empty hn
@@ -178,7 +182,7 @@ theorem recvTail_inv (s : State) (g c : Nat) (h : AllInv s.chans) (hq : (getC s 
   split
   · next v b heq =>
     simp only [setC_chans]; apply h.set
-    refine ⟨?_, ?_, ?_, ?_, ?_, hc.nil_open⟩
+    refine ⟨?_, ?_, ?_, ?_, ?_, hc.nil_open, hc.mixed⟩
     · have := hc.buf_le; rw [heq] at this; simp at this ⊢; omega
     · intro hr; have := hc.recv_buf hr; rw [heq] at this; cases this
     · intro hs; exact absurd hq hs
@@ -188,7 +192,7 @@ theorem recvTail_inv (s : State) (g c : Nat) (h : AllInv s.chans) (hq : (getC s 
     split
     · split <;> exact h
     · simp only [block_chans, setC_chans]; apply h.set
-      refine ⟨hc.buf_le, fun _ => heq, hc.send_full, ?_, hc.fifo, hc.nil_open⟩
+      refine ⟨hc.buf_le, fun _ => heq, hc.send_full, ?_, hc.fifo, hc.nil_open, fun e1 h1 => by rw [hq] at h1; cases h1⟩
       intro hn
       have := hc.nil_empty hn
       simp only [pushQ]; rw [if_pos hn]
@@ -211,7 +215,7 @@ theorem recvTail_inv_pushed (s1 : State) (g c x : Nat) (h : AllInv s1.chans) (hl
     have hl : b.length = ch.buf.length := by
       have := congrArg List.length heq; simp at this; omega
     have hle := hc.buf_le
-    refine ⟨by dsimp only; omega, ?_, by intro _; dsimp only; omega, ?_, ?_, hc.nil_open⟩
+    refine ⟨by dsimp only; omega, ?_, by intro _; dsimp only; omega, ?_, ?_, hc.nil_open, hc.mixed⟩
     · intro hr; have := hc.recv_buf hr; rw [this] at hl; simpa using hl
     · intro hn; have := hc.nil_empty hn
       refine ⟨this.1, this.2.1, ?_, this.2.2.2⟩
@@ -290,36 +294,59 @@ theorem doClose_inv (s : State) (c : Nat) (h : AllInv s.chans) : AllInv (doClose
     · have hc : ChanInv (getC s c) := h c
       have h1 : AllInv (setC s c { getC s c with closed := true }).chans := by
         simp only [setC_chans]; apply h.set
-        exact ⟨hc.buf_le, hc.recv_buf, hc.send_full, hc.nil_empty, hc.fifo, fun hn => absurd hn hnn⟩
+        exact ⟨hc.buf_le, hc.recv_buf, hc.send_full, hc.nil_empty, hc.fifo, fun hn => absurd hn hnn, hc.mixed⟩
       exact h1.shrinks (closeLoops_shrinks _ _ _)
 
 /-- what "no case is ready" gives for the registration loop -/
-def NotReady (cs : List Chan) : Case → Prop
+def NotReady (g : Nat) (cs : List Chan) : Case → Prop
   | .dflt => True
-  | .recv c => (cs.getD c Chan.nil).buf = [] ∧ (cs.getD c Chan.nil).closed = false
-  | .send c _ => (cs.getD c Chan.nil).cap ≤ (cs.getD c Chan.nil).buf.length ∧ (cs.getD c Chan.nil).closed = false
+  | .recv c => (cs.getD c Chan.nil).buf = [] ∧ (cs.getD c Chan.nil).closed = false ∧
+      ∀ e ∈ (cs.getD c Chan.nil).sendQ, e.gid = g
+  | .send c _ => (cs.getD c Chan.nil).cap ≤ (cs.getD c Chan.nil).buf.length ∧ (cs.getD c Chan.nil).closed = false ∧
+      ∀ e ∈ (cs.getD c Chan.nil).recvQ, e.gid = g
+
+/-- registering an entry of goroutine `g` on channel `c` keeps "no case is ready" for the remaining clauses -/
+theorem notReady_stable (g : Nat) (cs : List Chan) (x : Chan) (c : Nat)
+    (hb : x.buf = (cs.getD c Chan.nil).buf) (hcap : x.cap = (cs.getD c Chan.nil).cap)
+    (hcl : x.closed = (cs.getD c Chan.nil).closed)
+    (hs : ∀ e ∈ x.sendQ, e ∈ (cs.getD c Chan.nil).sendQ ∨ e.gid = g)
+    (hr : ∀ e ∈ x.recvQ, e ∈ (cs.getD c Chan.nil).recvQ ∨ e.gid = g)
+    (k' : Case) (hk : NotReady g cs k') : NotReady g (cs.set c x) k' := by
+  cases k' with
+  | dflt => trivial
+  | recv c' =>
+    simp only [NotReady] at hk ⊢; rw [getD_set]; split
+    · next h' =>
+      rw [hb, hcl, h'.1]
+      refine ⟨hk.1, hk.2.1, fun e he => ?_⟩
+      rcases hs e he with h1 | h1
+      · exact hk.2.2 e (h'.1 ▸ h1)
+      · exact h1
+    · exact hk
+  | send c' v' =>
+    simp only [NotReady] at hk ⊢; rw [getD_set]; split
+    · next h' =>
+      rw [hb, hcap, hcl, h'.1]
+      refine ⟨hk.1, hk.2.1, fun e he => ?_⟩
+      rcases hr e he with h1 | h1
+      · exact hk.2.2 e (h'.1 ▸ h1)
+      · exact h1
+    · exact hk
+
+theorem mem_pushQ {nl : Bool} {q : List Entry} {e0 e : Entry} (h : e ∈ pushQ nl q e0) : e ∈ q ∨ e = e0 := by
+  unfold pushQ at h; split at h
+  · exact Or.inl h
+  · rcases List.mem_append.mp h with h1 | h1
+    · exact Or.inl h1
+    · exact Or.inr (by simpa using h1)
 
 theorem registerCases_inv (g : Nat) (cases : List Case) : ∀ (i : Nat) (cs : List Chan),
-    AllInv cs → (∀ k ∈ cases, NotReady cs k) → AllInv (registerCases g cases i cs) := by
+    AllInv cs → (∀ k ∈ cases, NotReady g cs k) → AllInv (registerCases g cases i cs) := by
   induction cases with
   | nil => intro i cs h _; exact h
   | cons k rest ih =>
     intro i cs h hn
     have hk := hn k (by simp)
-    have stable : ∀ (x : Chan) (c : Nat), x.buf = (cs.getD c Chan.nil).buf → x.cap = (cs.getD c Chan.nil).cap →
-        x.closed = (cs.getD c Chan.nil).closed → ∀ k' ∈ rest, NotReady (cs.set c x) k' := by
-      intro x c hb hcap hcl k' hk'
-      have := hn k' (by simp [hk'])
-      cases k' with
-      | dflt => trivial
-      | recv c' =>
-        simp only [NotReady] at this ⊢; rw [getD_set]; split
-        · next h' => rw [hb, hcl, h'.1]; exact this
-        · exact this
-      | send c' v' =>
-        simp only [NotReady] at this ⊢; rw [getD_set]; split
-        · next h' => rw [hb, hcap, hcl, h'.1]; exact this
-        · exact this
     cases k with
     | dflt => exact ih _ _ h (fun k' hk' => hn k' (by simp [hk']))
     | recv c =>
@@ -327,20 +354,37 @@ theorem registerCases_inv (g : Nat) (cases : List Case) : ∀ (i : Nat) (cs : Li
       have hc := h c
       apply ih
       · apply h.set
-        refine ⟨hc.buf_le, fun _ => hk.1, hc.send_full, ?_, hc.fifo, hc.nil_open⟩
-        intro hnil; have := hc.nil_empty hnil; simp only [pushQ]; rw [if_pos hnil]; exact this
-      · exact stable _ c rfl rfl rfl
+        refine ⟨hc.buf_le, fun _ => hk.1, hc.send_full, ?_, hc.fifo, hc.nil_open, ?_⟩
+        · intro hnil; have := hc.nil_empty hnil; simp only [pushQ]; rw [if_pos hnil]; exact this
+        · intro e1 h1 e2 h2
+          rcases mem_pushQ h2 with h3 | h3
+          · exact hc.mixed e1 h1 e2 h3
+          · rw [h3]; exact hk.2.2 e1 h1
+      · intro k' hk'
+        exact notReady_stable g cs
+          { cs.getD c Chan.nil with recvQ := pushQ (cs.getD c Chan.nil).isNil (cs.getD c Chan.nil).recvQ ⟨g, some i, 0⟩ }
+          c rfl rfl rfl (fun e he => Or.inl he)
+          (fun e he => by rcases mem_pushQ he with h3 | h3; exact Or.inl h3; exact Or.inr (by rw [h3])) k' (hn k' (by simp [hk']))
     | send c v =>
       unfold registerCases; simp only
       have hc := h c
       apply ih
       · apply h.set
-        refine ⟨hc.buf_le, hc.recv_buf, fun _ => hk.1, ?_, hc.fifo, hc.nil_open⟩
-        intro hnil; have := hc.nil_empty hnil; simp only [pushQ]; rw [if_pos hnil]; exact this
-      · exact stable _ c rfl rfl rfl
+        refine ⟨hc.buf_le, hc.recv_buf, fun _ => hk.1, ?_, hc.fifo, hc.nil_open, ?_⟩
+        · intro hnil; have := hc.nil_empty hnil; simp only [pushQ]; rw [if_pos hnil]; exact this
+        · intro e1 h1 e2 h2
+          rcases mem_pushQ h1 with h3 | h3
+          · exact hc.mixed e1 h3 e2 h2
+          · rw [h3]; exact (hk.2.2 e2 h2).symm
+      · intro k' hk'
+        exact notReady_stable g cs
+          { cs.getD c Chan.nil with sendQ := pushQ (cs.getD c Chan.nil).isNil (cs.getD c Chan.nil).sendQ ⟨g, some i, v⟩ }
+          c rfl rfl rfl
+          (fun e he => by rcases mem_pushQ he with h3 | h3; exact Or.inl h3; exact Or.inr (by rw [h3]))
+          (fun e he => Or.inl he) k' (hn k' (by simp [hk']))
 
-theorem scan_notReady (s : State) (cases : List Case) : ∀ (i : Nat) (d : Option Nat),
-    scan s cases i = ([], d, false) → ∀ k ∈ cases, NotReady s.chans k := by
+theorem scan_notReady (g : Nat) (s : State) (cases : List Case) : ∀ (i : Nat) (d : Option Nat),
+    scan s cases i = ([], d, false) → ∀ k ∈ cases, NotReady g s.chans k := by
   induction cases with
   | nil => intro i d _ k hk; cases hk
   | cons k rest ih =>
@@ -367,7 +411,8 @@ theorem scan_notReady (s : State) (cases : List Case) : ∀ (i : Nat) (d : Optio
         · subst h
           simp only [NotReady, ← getC_def]
           simp only [Chan.recvReady, Bool.or_eq_true, not_or, bne_iff_ne, ne_eq, Decidable.not_not] at hnr
-          exact ⟨List.eq_nil_of_length_eq_zero hnr.1.2, by simpa using hnr.2⟩
+          refine ⟨List.eq_nil_of_length_eq_zero hnr.1.2, by simpa using hnr.2, ?_⟩
+          intro e he; rw [List.eq_nil_of_length_eq_zero hnr.1.1] at he; cases he
         · exact ih _ _ hr k' h
     | send c v =>
       simp only at hs
@@ -384,7 +429,10 @@ theorem scan_notReady (s : State) (cases : List Case) : ∀ (i : Nat) (d : Optio
           · subst h
             simp only [NotReady, ← getC_def]
             simp only [Chan.sendReady, Bool.or_eq_true, not_or, decide_eq_true_eq] at hnr
-            exact ⟨by omega, by simpa using hopen⟩
+            refine ⟨by omega, by simpa using hopen, ?_⟩
+            intro e he
+            have hz : (getC s c).recvQ = [] := List.eq_nil_of_length_eq_zero (by simpa using hnr.1)
+            rw [hz] at he; cases he
           · exact ih _ _ hr k' h
 
 theorem doSelect_inv (s : State) (g : Nat) (cases : List Case) (pick : Nat) (h : AllInv s.chans) :
@@ -417,7 +465,7 @@ theorem doSelect_inv (s : State) (g : Nat) (cases : List Case) (pick : Nat) (h :
         · next hl => simp at hl; exact hl
       have ht : thr = false := by simpa using hthr
       subst hr; subst ht
-      exact registerCases_inv g cases 0 s.chans h (scan_notReady s cases 0 dsel hsc)
+      exact registerCases_inv g cases 0 s.chans h (scan_notReady g s cases 0 dsel hsc)
 
 theorem allInv_append {cs : List Chan} (h : AllInv cs) {x : Chan} (hx : ChanInv x) : AllInv (cs ++ [x]) := by
   intro i
@@ -638,38 +686,33 @@ theorem doClose_ce (s : State) (c : Nat) (h : AllCE s.chans) : AllCE (doClose s 
         exact h i
 
 theorem registerCases_ce (g : Nat) (cases : List Case) : ∀ (i : Nat) (cs : List Chan),
-    AllCE cs → (∀ k ∈ cases, NotReady cs k) → AllCE (registerCases g cases i cs) := by
+    AllCE cs → (∀ k ∈ cases, NotReady g cs k) → AllCE (registerCases g cases i cs) := by
   induction cases with
   | nil => intro i cs h _; exact h
   | cons k rest ih =>
     intro i cs h hn
     have hk := hn k (by simp)
-    have stable : ∀ (x : Chan) (c : Nat), x.buf = (cs.getD c Chan.nil).buf → x.cap = (cs.getD c Chan.nil).cap →
-        x.closed = (cs.getD c Chan.nil).closed → ∀ k' ∈ rest, NotReady (cs.set c x) k' := by
-      intro x c hb hcap hcl k' hk'
-      have := hn k' (by simp [hk'])
-      cases k' with
-      | dflt => trivial
-      | recv c' =>
-        simp only [NotReady] at this ⊢; rw [getD_set]; split
-        · next h' => rw [hb, hcl, h'.1]; exact this
-        · exact this
-      | send c' v' =>
-        simp only [NotReady] at this ⊢; rw [getD_set]; split
-        · next h' => rw [hb, hcap, hcl, h'.1]; exact this
-        · exact this
     cases k with
     | dflt => exact ih _ _ h (fun k' hk' => hn k' (by simp [hk']))
     | recv c =>
       unfold registerCases; simp only
       apply ih
-      · exact h.set c (ce_open hk.2)
-      · exact stable _ c rfl rfl rfl
+      · exact h.set c (ce_open hk.2.1)
+      · intro k' hk'
+        exact notReady_stable g cs
+          { cs.getD c Chan.nil with recvQ := pushQ (cs.getD c Chan.nil).isNil (cs.getD c Chan.nil).recvQ ⟨g, some i, 0⟩ }
+          c rfl rfl rfl (fun e he => Or.inl he)
+          (fun e he => by rcases mem_pushQ he with h3 | h3; exact Or.inl h3; exact Or.inr (by rw [h3])) k' (hn k' (by simp [hk']))
     | send c v =>
       unfold registerCases; simp only
       apply ih
-      · exact h.set c (ce_open hk.2)
-      · exact stable _ c rfl rfl rfl
+      · exact h.set c (ce_open hk.2.1)
+      · intro k' hk'
+        exact notReady_stable g cs
+          { cs.getD c Chan.nil with sendQ := pushQ (cs.getD c Chan.nil).isNil (cs.getD c Chan.nil).sendQ ⟨g, some i, v⟩ }
+          c rfl rfl rfl
+          (fun e he => by rcases mem_pushQ he with h3 | h3; exact Or.inl h3; exact Or.inr (by rw [h3]))
+          (fun e he => Or.inl he) k' (hn k' (by simp [hk']))
 
 theorem doSelect_ce (s : State) (g : Nat) (cases : List Case) (pick : Nat) (h : AllCE s.chans) :
     AllCE (doSelect s g cases pick).1.chans := by
@@ -701,7 +744,7 @@ theorem doSelect_ce (s : State) (g : Nat) (cases : List Case) (pick : Nat) (h : 
         · next hl => simp at hl; exact hl
       have ht : thr = false := by simpa using hthr
       subst hr; subst ht
-      exact registerCases_ce g cases 0 s.chans h (scan_notReady s cases 0 dsel hsc)
+      exact registerCases_ce g cases 0 s.chans h (scan_notReady g s cases 0 dsel hsc)
 
 theorem step_ce (s : State) (ev : Event) (h : AllCE s.chans) : AllCE (step s ev).1.chans := by
   unfold step
